@@ -32,7 +32,7 @@ func init() {
 		NeedsCG:     true,
 		Rules: []core.Rule{
 			{ID: "C20-R1", Title: "start-up ordering; load/save key agreement; key pair created only when absent", Decides: "device id, key pair and pairings survive restarts", Floor: 7, Run: func(c *core.Ctx) { c20r1(c); passThrough(c, "C20"); keyPairRouting(c); returnsUndecorated(c, "C20") }},
-			{ID: "C20-R2", Title: "configuration number bump rule", Decides: "c# increases exactly when the structure changed", Floor: 3, Run: c20r2},
+			{ID: "C20-R2", Title: "configuration number bump rule; every stored configuration key is read and written on every path", Decides: "c# increases exactly when the structure changed", Floor: 3, Run: func(c *core.Ctx) { c20r2(c); configKeysUnconditional(c) }},
 			{ID: "C20-R3", Title: "values do not count in the content hash", Decides: "never because characteristic values changed", Floor: 4, Run: func(c *core.Ctx) { c20r3(c); valuePathsStoreOnlyValue(c) }},
 			{ID: "C20-R4", Title: "discoverable derives from the stored pairings; events wired", Decides: "discoverable exactly when no controller pairing is stored", Floor: 9, Run: func(c *core.Ctx) {
 				c20r4(c)
